@@ -777,6 +777,22 @@ func (s *Store) StoredReport(manifest string) (*claircore.IndexReport, bool) {
 	return &ir, true
 }
 
+// HasManifest reports whether the manifest row exists.
+func (s *Store) HasManifest(manifest string) bool {
+	s.mu.Lock()
+	defer s.mu.Unlock()
+	_, ok := s.manifests[manifest]
+	return ok
+}
+
+// Counts returns the number of manifest rows, scanned_layer rows and scan
+// artifact rows (all four kinds).
+func (s *Store) Counts() (manifests, scannedLayers, artifacts int) {
+	s.mu.Lock()
+	defer s.mu.Unlock()
+	return len(s.manifests), len(s.scannedLayer), len(s.pkgArts) + len(s.distArts) + len(s.repoArts) + len(s.fileArts)
+}
+
 // ManifestIndexed reports whether IndexManifest stored at least one record.
 func (s *Store) ManifestIndexed(manifest string) bool {
 	s.mu.Lock()
